@@ -31,6 +31,11 @@ CASES = [
     ('move_input.off_by_one', 'src/parser/request.rs', 'self.input.copy_within(used_len..self.input_len, 0);', 'self.input.copy_within(used_len..self.input_len, 1);', ['C05'], 'mutant'),
     ('parse_stream.reserve_only', 'src/parser/request.rs', '            self.buffer.extend(&*data);\n            crate::macros::trace!(', '            crate::macros::trace!(', ['C01'], 'mutant'),
     ('values.reply_on_empty_body', 'src/parser/request.rs', '        if self.payload_rem > 0 {\n            let len = min(data.len(), self.payload_rem.into());', '        if true {\n            let len = min(data.len(), self.payload_rem.into());', ['C04'], 'mutant'),
+    # ---- CGI response writers
+    ('redirect.count_off_by_one', 'src/cgi/response.rs', 'Ok(LOCATION.len() + 2 + val.len())', 'Ok(LOCATION.len() + 1 + val.len())', ['C20'], 'mutant'),
+    ('headers.count_missing_separator', 'src/cgi/response.rs', 'written += name.len() + val.len() + 3;', 'written += name.len() + val.len() + 2;', ['C20'], 'mutant'),
+    ('headers.value_before_name', 'src/cgi/response.rs', '        w.write_all(name)?;\n        w.write_all(b": ")?;\n        w.write_all(val)?;', '        w.write_all(val)?;\n        w.write_all(b": ")?;\n        w.write_all(name)?;', ['C20'], 'mutant'),
+    ('epilogue.endrequest_first', 'src/protocol/body.rs', '    for &s in streams {\n        let rec = RecordHeader::new(s, request_id);\n        buf.extend_from_slice(&rec.to_bytes());\n    }\n    buf.extend_from_slice(&EndRequest::from(status).to_record(request_id));', '    buf.extend_from_slice(&EndRequest::from(status).to_record(request_id));\n    for &s in streams {\n        let rec = RecordHeader::new(s, request_id);\n        buf.extend_from_slice(&rec.to_bytes());\n    }', ['C17'], 'mutant-or-undecided'),
     # ---- harmless edits: must stay exit 0
     ('harmless.rename_local', 'src/parser/stream.rs', 'let parsed_len = self.gap_start - self.parsed_start;\n        self.parsed_start += min(amt, parsed_len);', 'let plen = self.gap_start - self.parsed_start;\n        self.parsed_start += min(amt, plen);', ['C02', 'C03'], 'harmless'),
     ('harmless.reorder_independent', 'src/parser/stream.rs', '        self.payload_rem = head.content_length;\n        self.padding_rem = head.padding_length;\n        self.raw_start = past_head;', '        self.raw_start = past_head;\n        self.padding_rem = head.padding_length;\n        self.payload_rem = head.content_length;', ['C02'], 'harmless'),
@@ -62,9 +67,9 @@ def main():
             r = subprocess.run(['./check', prop, '--tier', 'quick'], cwd=VERIF, env=env, capture_output=True, text=True)
             line = next((l for l in r.stdout.split('\n') if l.startswith(('VIOLATION', 'OK', 'UNDECIDED'))), r.stdout[-200:])
             obs = [l.strip() for l in r.stdout.split('\n') if 'failed obligation' in l][:3]
-            want = 1 if kind == 'mutant' else 0
-            verdict = 'as expected' if r.returncode == want else '*** UNEXPECTED ***'
-            if r.returncode != want:
+            want = {'mutant': (1,), 'harmless': (0,), 'mutant-or-undecided': (1, 2)}[kind]
+            verdict = 'as expected' if r.returncode in want else '*** UNEXPECTED ***'
+            if r.returncode not in want:
                 ok = False
             print(f'{name} [{kind}] ./check {prop}: rc={r.returncode} {verdict} :: {line[:110]} {obs}', flush=True)
         shutil.rmtree(d, ignore_errors=True)
